@@ -1,5 +1,7 @@
 import SafeC.Proofs.Footprint
 import SafeC.Proofs.AccFld
+import SafeC.Proofs.AccS
+import SafeC.Proofs.AccQuery
 import SafeC.Props.C05Time
 /-!
 # Footprint of `asctime_s` / `ctime_s` (C12)
@@ -171,5 +173,107 @@ theorem within2_timeTail_small (cfg : Cfg) (dest dmax : Nat) (db : Bos) (text n 
   refine within2_mono ?_ ?_ _ s this
   · intro a ha; simpa [Rb, Cells] using ha
   · intro a ha; simpa [Wb, Cells] using ha
+
+/-! ## the direct path (`dmax ≥ 120`): libc writes its text into dest, the tail measures dest and calls
+`strcpy_s(dest, dmax, dest)` -/
+
+/-- libc storing a string of `n` characters (at `text`, apart from the target) at `dst`: loads the string,
+stores `dst[0..n]`, which then holds the string -/
+theorem AccS_copyText (n : Nat) : ∀ (fuel text dst : Nat) (d : Nat → Nat), n < fuel →
+    (∀ j, j < n → d (text + j) ≠ 0) → d (text + n) = 0 → (dst + n < text ∨ text + n < dst) →
+    (∀ j, j ≤ n → R (text + j)) → (∀ j, j ≤ n → W (dst + j)) →
+    AccS R W d (copyText fuel text dst)
+      (fun _ d' => (∀ j, j ≤ n → d' (dst + j) = d (text + j)) ∧ ∀ a, ¬ (dst ≤ a ∧ a ≤ dst + n) → d' a = d a) := by
+  induction n with
+  | zero =>
+    intro fuel text dst d hf _ hnul _ hr hw
+    obtain ⟨f, rfl⟩ : ∃ f, fuel = f + 1 := ⟨fuel - 1, by omega⟩
+    unfold copyText
+    refine AccS.loadBind (by simpa using hr 0 (Nat.le_refl _)) ?_
+    refine AccS.storeBind (by simpa using hw 0 (Nat.le_refl _)) ?_
+    have h0 : d text = 0 := by simpa using hnul
+    rw [if_pos h0]
+    refine AccS.pure _ ⟨?_, ?_⟩
+    · intro j hj
+      have : j = 0 := by omega
+      subst this
+      simp [updF]
+    · intro a ha
+      have : a ≠ dst := fun e => ha ⟨by omega, by omega⟩
+      simp [updF, this]
+  | succ n ih =>
+    intro fuel text dst d hf hnz hnul hdisj hr hw
+    obtain ⟨f, rfl⟩ : ∃ f, fuel = f + 1 := ⟨fuel - 1, by omega⟩
+    unfold copyText
+    refine AccS.loadBind (by simpa using hr 0 (by omega)) ?_
+    refine AccS.storeBind (by simpa using hw 0 (by omega)) ?_
+    have h0 : ¬ d text = 0 := by simpa using hnz 0 (by omega)
+    rw [if_neg h0]
+    have hd1 : ∀ j, j ≤ n + 1 → updF d dst (d text) (text + j) = d (text + j) := by
+      intro j hj
+      have : text + j ≠ dst := by omega
+      simp [updF, this]
+    have := ih f (text + 1) (dst + 1) (updF d dst (d text)) (by omega)
+      (fun j hj => by
+        have e := hd1 (1 + j) (by omega)
+        rw [show text + 1 + j = text + (1 + j) by omega, e]
+        exact hnz (1 + j) (by omega))
+      (by
+        have e := hd1 (n + 1) (Nat.le_refl _)
+        rw [show text + 1 + n = text + (n + 1) by omega, e]
+        exact hnul)
+      (by omega)
+      (fun j hj => by have := hr (j + 1) (by omega); rwa [show text + (j + 1) = text + 1 + j by omega] at this)
+      (fun j hj => by have := hw (j + 1) (by omega); rwa [show dst + (j + 1) = dst + 1 + j by omega] at this)
+    refine AccS.conseq this (fun _ d' ⟨p1, p2⟩ => ⟨?_, ?_⟩)
+    · intro j hj
+      cases j with
+      | zero =>
+        have := p2 dst (fun h => by omega)
+        simp only [Nat.add_zero]
+        rw [this]; simp [updF]
+      | succ j =>
+        have := p1 j (by omega)
+        rw [show dst + (j + 1) = dst + 1 + j by omega, this, show text + 1 + j = text + (1 + j) by omega,
+          hd1 (1 + j) (by omega)]
+        congr 1; omega
+    · intro a ha
+      rw [p2 a (fun h => ha ⟨by omega, by omega⟩)]
+      have : a ≠ dst := fun e => ha ⟨by omega, by omega⟩
+      simp [updF, this]
+
+/-- `strcpy_s(dest, dmax, dest, destbos)`: the entry checks (which may clear dest), then the same-pointer exit -/
+theorem Acc_strcpy_s_same (cfg : Cfg) (dest dmax : Nat) (b : Bos) (hd : dest ≠ 0) (hpos : dmax ≠ 0)
+    (hr : ∀ a, Cells dest dmax a → R a) (hw : ∀ a, Cells dest dmax a → W a) :
+    Acc R W (strcpy_s cfg dest dmax dest b) (fun _ => True) := by
+  unfold strcpy_s strcpyG
+  rw [if_neg hd, if_neg hpos]
+  refine Acc_chkDmaxClear' cfg dest dmax b _ hd hpos hr hw ?_
+  rw [if_neg hd, if_pos rfl]
+  exact Acc.pure _ trivial
+
+/-- the tail on the direct path, libc's text a string of `n < 120` characters apart from dest -/
+theorem within2_timeTail_big (cfg : Cfg) (dest dmax : Nat) (db : Bos) (text n : Nat) (s : St) (h120 : 120 ≤ dmax)
+    (hd : dest ≠ 0) (ht : text ≠ 0)
+    (hnz : ∀ j, j < n → s.data (text + j) ≠ 0) (hnul : s.data (text + n) = 0) (hn : n < 120)
+    (hdisj : Disjoint dest dmax text n) :
+    Within2 (fun a => Cells dest dmax a ∨ (text ≤ a ∧ a ≤ text + n)) (Cells dest dmax)
+      (timeTail cfg dest dmax db text) s := by
+  refine AccS.within2 (Q := fun _ _ => True) ?_ s rfl
+  unfold timeTail
+  dsimp only
+  rw [if_neg ht, if_pos (show dmax ≥ 120 from h120)]
+  unfold Disjoint at hdisj
+  refine AccS.bind (AccS_copyText n 120 text dest s.data hn hnz hnul (by omega)
+    (fun j hj => Or.inr ⟨by omega, by omega⟩) (fun j hj => ⟨by omega, by omega⟩)) (fun _ d' ⟨p1, _⟩ => ?_)
+  have hterm : d' (dest + n) = 0 := by rw [p1 n (Nat.le_refl _)]; exact hnul
+  refine AccS.bind (AccS.of_AccD (AccD_strlenP scanFuel dest 0 (fun a ha => ?_))) (fun len d'' ⟨e, _⟩ => ?_)
+  · have := Str.of_term hterm ha
+    exact Or.inl ⟨this.1, by have := this.2; omega⟩
+  · subst e
+    split
+    · exact AccS.bind (AccS.of_Acc (Acc_strcpy_s_same cfg dest dmax db hd (by omega)
+        (fun a ha => Or.inl ha) (fun a ha => ha)) _) (fun _ _ _ => AccS.pure _ trivial)
+    · exact AccS.handlerSBind _ (AccS.pure _ trivial)
 
 end SafeC
